@@ -7,7 +7,7 @@ PROPS = {
     "C04": dict(tier_a=["contracts.generator_fmt"], regtrans=True, tier_b="bounded.c04"),
     "C05": dict(tier_a=["contracts.parser_cursor", "contracts.errors_funnel", "contracts.tokenizer"], projection=True, tier_b="bounded.c05"),
     "C06": dict(tier_a=["contracts.simplify_tables"], tier_b="bounded.c06"),
-    "C07": dict(tier_a=["contracts.generator_fmt"], regtrans=True, tier_b="bounded.c07"),
+    "C07": dict(tier_a=["contracts.generator_fmt"], regtrans=True, scans=["c07"], tier_b="bounded.c07"),
     "C08": dict(tier_a=["contracts.core_tree"], tier_b="bounded.c08"),
     "C09": dict(tier_a=["contracts.copy_frames"], scans=["c09"], tier_b="bounded.c09"),
     "C10": dict(tier_a=["contracts.identifiers"], tier_b="bounded.c10"),
